@@ -40,6 +40,9 @@ func genC03(c *Ctx) {
 	hp := hashPoint(msg, h)
 	inf := make([]byte, 48)
 	inf[0] = 0xc0
+	// positions that the Go layer discards before the C call (wrong-length signature, identity key), applied on top of
+	// the kind of a run: entropy or indices that are laid out for the surviving entries only go wrong behind them
+	var discard []int
 	run := func(n int, invalid []int, kind int) {
 		ks := make([]*big.Int, n)
 		pks := make([]crypto.PublicKey, n)
@@ -179,6 +182,17 @@ func genC03(c *Ctx) {
 				sigs[i] = inf
 			}
 		}
+		for j, i := range discard {
+			if i >= n {
+				continue
+			}
+			if j%2 == 0 {
+				sigs[i] = sigs[i][:47]
+			} else {
+				pks[i] = pickIdentity(c, i)
+				modelK[i] = big.NewInt(0)
+			}
+		}
 		// expected: index-by-index individual verification (model), and directly pks[i].Verify on the implementation
 		var want, indiv []string
 		_ = want
@@ -286,6 +300,19 @@ func genC03(c *Ctx) {
 			run(n, invalid, []int{kSwapped, kPlusMinusD, kThreeWay, kPolyCancel, kGeom2, c.intn(kKinds)}[rep%6])
 		}
 	}
+	// discarded entries in front, cancelling groups of invalid signatures in the LAST positions (and elsewhere)
+	for _, sh := range []struct {
+		n       int
+		discard []int
+		invalid []int
+		kind    int
+	}{{8, []int{0, 1}, []int{6, 7}, kSwapped}, {8, []int{2, 5}, []int{6, 7}, kPlusMinusD}, {12, []int{0, 3, 5}, []int{9, 10, 11}, kThreeWay},
+		{12, []int{1, 2}, []int{10, 11}, kGeom2}, {9, []int{0}, []int{7, 8}, kSwapped}, {16, []int{0, 1, 2, 3}, []int{12, 13, 14, 15}, kSwapped},
+		{65, []int{0, 1, 63}, []int{62, 64}, kSwapped}, {33, []int{4, 9}, []int{31, 32}, kPolyCancel}, {10, []int{8, 9}, []int{0, 1}, kSwapped}} {
+		discard = sh.discard
+		run(sh.n, sh.invalid, sh.kind)
+	}
+	discard = nil
 	// input errors: every returned boolean is false
 	k := skFromInt(big.NewInt(5))
 	sig, _ := k.Sign(msg, h)
